@@ -40,6 +40,8 @@ def C13():
                          functions=["core::tpkt::Client::read", "model::link::Link::read"], timeout=400, mem_gb=6))
     jobs.append(MirJob("c13_mir_stream_access", "tpkt::Client::read/read_body call no transport method other than Link::read (composition fact for schedule independence)",
                        mirjobs.tpkt_read_uses_only_link_read))
+    jobs.append(MirJob("c13_mir_never_reads_zero", "tpkt.rs: on every path every Link::read asks for a non-zero byte count (SMT over the header values; Link::read(0) means \"whatever is available\" and would take bytes of the next frame into this one)",
+                       mirjobs.link_read_never_zero))
     return Prop("C13", [("core/tpkt.rs", "tpkt.rs")], jobs, lowerings=["L2"],
                 assumptions=[S6, DEV,
                              "composition: tpkt::Client::read reaches the stream only through Link::read (private field; checked by the E2 call-set query in C14/C13 when present), so schedule-independence of Link::read (c13_link_read_*) lifts H13a/H13b to every fragmentation",
